@@ -300,6 +300,21 @@ def prefix_name_lists():
     return out
 
 
+def odd_hwid_lists():
+    """Boards identified by their description alone, with every kind of hardware-id text pyserial
+    produces for a port it knows little about ('n/a' for non-USB ports, empty, a Bluetooth or
+    ACPI path, a foreign USB id): discovery, listing, naming and lookup go by the description."""
+    out = []
+    for hwid in ("n/a", "N/A", "", "BTHENUM\\{00001101-0000-1000-8000-00805F9B34FB}_LOCALMFG&0000",
+                 "ACPI\\PNP0501\\1", "USB VID:PID=1234:5678 SER=Widget7", " "):
+        for descr in ("EiBotBoard,Lab Plotter", "EiBotBoard", "EiBotBoard,Q"):
+            board = ("/dev/cu.usbmodem1421", descr, hwid)
+            out.append([board])
+            out.append([DESCRIPTORS[6], board])
+            out.append([board, DESCRIPTORS[2]])
+    return out
+
+
 def _prefix_chunk(lists):
     part = core.Part()
     for ports in lists:
@@ -362,7 +377,7 @@ def run(ctx):
     part = core.fan_out(ctx, _chunk, jobs)
     part.merge(core.fan_out(ctx, _reuse_chunk, core.split(short_lists(), 32)))
     part.merge(core.fan_out(ctx, _names_chunk, core.split(name_alphabet_lists(), 16)))
-    part.merge(core.fan_out(ctx, _prefix_chunk, core.split(prefix_name_lists(), 8)))
+    part.merge(core.fan_out(ctx, _prefix_chunk, core.split(prefix_name_lists() + odd_hwid_lists(), 8)))
     for clause, msg, _l in check_raising():
         part.violation(clause, msg, {"kind": "raising"})
     # long enumerations: every descriptor in turn preceded by 30 foreign ports and followed by
